@@ -33,10 +33,10 @@ pub struct Engine {
 }
 impl Engine {
     pub fn spawn() -> Result<Engine, String> {
-        let bin = std::env::var("WALLEYE_BIN").map_err(|_| "WALLEYE_BIN not set (run through ./check)".to_string())?;
+        let bin = std::env::var("WALLEYE_BIN").map_err(|_| "HARNESS: WALLEYE_BIN not set (run through ./check)".to_string())?;
         let dir = format!("{}/run/e_{}_{}", std::env::var("VERIF_CACHE").unwrap_or_else(|_| "/verif/.cache".into()), std::process::id(), COUNTER.fetch_add(1, Ordering::Relaxed));
-        std::fs::create_dir_all(&dir).map_err(|e| e.to_string())?;
-        let mut child = Command::new(&bin).current_dir(&dir).stdin(Stdio::piped()).stdout(Stdio::piped()).stderr(Stdio::piped()).spawn().map_err(|e| format!("cannot start {}: {}", bin, e))?;
+        std::fs::create_dir_all(&dir).map_err(|e| format!("HARNESS: cannot create {}: {}", dir, e))?;
+        let mut child = Command::new(&bin).current_dir(&dir).stdin(Stdio::piped()).stdout(Stdio::piped()).stderr(Stdio::piped()).spawn().map_err(|e| format!("HARNESS: cannot start {}: {}", bin, e))?;
         let stdin = child.stdin.take();
         let out = child.stdout.take().unwrap();
         let err = child.stderr.take().unwrap();
